@@ -1506,6 +1506,7 @@ func main() {
 	}
 	r.Floor("size_sweep_length_mod_2048", r.DistinctN("size_sweep_length_mod_2048"), 2048)
 	r.Floor("size_sweep_bodies_of_a_multiple_of_the_chunk_size", int(r.Counter("size_sweep_bodies_of_a_multiple_of_the_chunk_size")), 2)
+	r.Floor("size_sweep_answers_abandoned_by_another_controller", int(r.Counter("size_sweep_answers_abandoned_by_another_controller")), 100)
 
 	c.flushTyped()
 
